@@ -1,5 +1,5 @@
 //! C20 monitor: exact-rational (u128/i128 big-enough integer) expectations vs the real conversion functions.
-use crate::fam_integr::{cum_interest, gen_reserve_price, kprice128, kprice64, spot_market, supply_fx};
+use crate::fam_integr::{cum_interest, gen_reserve_price, spot_market, supply_fx};
 use crate::mon::Report;
 use crate::rng::Rng;
 use fixed::types::I80F48;
@@ -183,12 +183,9 @@ fn check_price(l: i128, c: u64, d: u8, p: i128, rep: &mut Report) {
             }
         }
     };
-    if let Some(q) = kprice128(l, c, d, p) {
-        rep.bump("price128");
-        report("adjust_i128", q, rep);
-    }
+    // the adjusted price comes out of the REAL oracle adapter (Kamino + Pyth arm, exponent 0) on a really-laid-out reserve
     if p <= i64::MAX as i128 {
-        if let Some(q) = kprice64(l, c, d, p as i64) {
+        if let Some(q) = crate::mon_venue::kamino_pyth_adjusted(l, c, d, p as i64) {
             rep.bump("price64");
             report("adjust_i64", q as i128, rep);
         }
